@@ -86,6 +86,7 @@ pub proof fn lemma_shl_is_pow2(k: usize)
 pub uninterp spec fn sp_configured_num_queries() -> usize;
 /// F::TWO_ADICITY
 pub uninterp spec fn sp_two_adicity() -> nat;
+pub uninterp spec fn refused_for_another_reason_than_the_phase_count(fp: &FriProofTargets) -> bool;
 /// FriParameters::max_log_arity of the configuration the verifier is meant to enforce (not carried by FriVerifierParams)
 pub uninterp spec fn sp_configured_max_log_arity() -> nat;
 #[verifier::external_body] pub fn two_adicity_() -> (r: usize) ensures r == sp_two_adicity() { unimplemented!() }
@@ -202,6 +203,8 @@ def build():
     f.ensures('ok_implies_well_formed', 'ret is Ok ==> fri_shape_ok(fri_proof_targets, betas@.len(), index_bits_per_query@, log_blowup as nat)')
     # native verify_fri: InvalidLogArity for a phase folding by more than the configured max_log_arity; FriVerifierParams carries no such bound (open finding)
     f.ensures('H_no_phase_folds_by_more_than_the_configured_max_log_arity', 'ret is Ok ==> forall|p_: int| 0 <= p_ < fri_proof_targets.log_arities@.len() ==> #[trigger] fri_proof_targets.log_arities@[p_] <= sp_configured_max_log_arity()')
+    # open finding (round 17): native verify_fri accepts a proof without commit phases (every committed matrix has one row); the circuit refuses it ("FRI must have at least one fold phase")
+    f.ensures('H_a_proof_without_commit_phases_is_not_refused_for_that_alone', 'betas@.len() == 0 ==> (ret is Err ==> refused_for_another_reason_than_the_phase_count(fri_proof_targets))')
     f.ensures('malformed_is_invalid_proof_shape', 'ret matches Err(e) ==> e is InvalidProofShape')
     u.text('verus! {')
     u.emit(f)
